@@ -155,6 +155,7 @@ enum Kind
   P_TABLE_INDEX,
   P_COMPARE,
   P_NESTED,
+  L_RESET,
   K_COUNT
 };
 static const char* kKind[] = { "create",       "destroy",      "malloc",     "free",        "free_dead",
@@ -165,7 +166,7 @@ static const char* kKind[] = { "create",       "destroy",      "malloc",     "fr
                                "store_field",  "store_struct", "cast",       "opaque",      "guest_write_cell",
                                "app_ptr",      "grant",        "invoke_echo", "invoke_retptr", "invoke_callback",
                                "volatile_ptr_op", "array_of_pointers_copy", "volatile_to_volatile_assign", "function_pointer_cell",
-                               "table_index", "pointer_compare", "nested_struct" };
+                               "table_index", "pointer_compare", "nested_struct", "reset" };
 static_assert(sizeof(kKind) / sizeof(kKind[0]) == K_COUNT);
 
 enum TypeTag
@@ -313,6 +314,7 @@ struct MemWorld : World
     w[L_DROP_OWNER] = 2;
     w[L_INVOKE_ID] = 3;
     w[L_PROBE_REGISTRY] = 3;
+    w[L_RESET] = 2;
     w[C_ACCEPT] = 4;
     w[C_ASSIGN_T] = 3;
     w[C_ASSIGN_V] = 3;
@@ -334,6 +336,7 @@ struct MemWorld : World
       w[L_MALLOC] = 5;
       w[L_FREE_DEAD] = 3;
       w[L_PROBE_REGISTRY] = 6;
+      w[L_RESET] = 6;
     }
     for (int k = 0; k < K_COUNT; k++)
       if (k != L_CREATE && k != L_MALLOC && r.chance(1, 5) && !(lifecycle_focus && w[(size_t)k] > 4))
@@ -362,7 +365,7 @@ struct MemWorld : World
         case L_MALLOC:
           o.a[1] = (int64_t)r.below(T_COUNT);
           o.a[2] = r.chance(2, 3) ? r.range(1, 8) : r.chance(1, 2) ? r.range(1, size / 2) : r.chance(1, 2) ? size : (int64_t)r.pick(std::vector<int64_t>{ 0xFFFFFFFFLL, 0x80000000LL, 0x40000001LL, 0x20000000LL, 0x10000002LL });
-          o.a[3] = r.chance(1, 10) ? 1 : r.chance(1, 12) ? 2 : 0; // F3 / F4
+          o.a[3] = r.chance(1, 10) ? 1 : r.chance(1, 12) ? 2 : r.chance(1, 14) ? 3 : 0; // F3 / F4 / F4 wild
           break;
         case C_ACCEPT:
         case C_ASSIGN_T:
@@ -757,9 +760,13 @@ struct MemWorld : World
       g_fault.malloc_fail = 1;
     if (op.a[3] == 2)
       g_fault.malloc_straddle = 1;
+    if (op.a[3] == 3 && st.state == 1 && (uint64_t)count * sizeof(T) <= 2048)
+      g_fault.malloc_wild = 1; // the block lies wholly in the application page behind the region
     TP<T> p = nullptr;
     Outcome o = attempt([&] { p = st.sb->template malloc_in_sandbox<T>(count); });
     g_fault.clear();
+    if (st.state == 1)
+      st.impl()->wild_rep_once = 0;
     uint64_t calls = st.impl()->n_mallocs - before;
     C->ev("malloc #%d type %d count %u -> %s", s, (int)op.a[1], count, oname(o));
     if (st.state != 1) {
@@ -1614,6 +1621,21 @@ struct MemWorld : World
                  (unsigned long long)rep,
                  (unsigned long long)want);
   }
+  // a guest thread that looks at one pointer cell whenever the library touches the region (trap-MMU runs)
+  struct CellWatch
+  {
+    uint8_t* gcell;
+    PT seen[8];
+    int n;
+  };
+  static void watch_hook(uint64_t, uint32_t, bool, void* ud)
+  {
+    auto* w = (CellWatch*)ud;
+    PT v;
+    memcpy(&v, w->gcell, sizeof v);
+    if (w->n < 8)
+      w->seen[w->n++] = v;
+  }
   void do_store(const Op& op)
   {
     Handle* h = pick(op.a[0], T_PINT);
@@ -1634,12 +1656,27 @@ struct MemWorld : World
     auto& pp = std::get<TP<int*>>(h->v);
     uint32_t off = (uint32_t)(haddr(*h) - S[(size_t)s].base());
     bool as_null = (op.a[2] % 4) == 0;
+    CellWatch cw{ S[(size_t)s].impl()->gptr(off), {}, 0 };
+    PT old_rep;
+    memcpy(&old_rep, cw.gcell, sizeof old_rep);
+    if (Sbx::cfg.mmu)
+      mmu::arm(S[(size_t)s].impl()->mem.base, S[(size_t)s].size(), watch_hook, &cw);
     Outcome o = attempt([&] {
       if (as_null)
         *pp = nullptr;
       else
         *pp = qv;
     });
+    if (Sbx::cfg.mmu) {
+      C->st.steps += mmu::g.count;
+      mmu::disarm();
+      C->probe("pointer_cell_watched_during_store");
+      // the guest may run at any instant: all it may ever find in the cell is what was there before or what is stored now
+      PT new_rep = as_null || qv == nullptr ? (PT)0 : (PT)((uintptr_t)qv.UNSAFE_unverified() - S[(size_t)s].base());
+      for (int i = 0; i < cw.n && !C->stop; i++)
+        if (cw.seen[i] != old_rep && cw.seen[i] != new_rep)
+          C->violate("C04", "cell_held_representation_never_stored@store", "cell went from %llu to %llu, in between the guest could read %llu", (unsigned long long)old_rep, (unsigned long long)new_rep, (unsigned long long)cw.seen[i]);
+    }
     C->ev("store -> %s", oname(o));
     if (o == OK)
       check_store(s, off, as_null ? 0 : (uintptr_t)qv.UNSAFE_unverified(), "store");
@@ -2606,6 +2643,18 @@ struct MemWorld : World
         case P_NESTED:
           do_nested(op);
           break;
+        case L_RESET: {
+          // reset_sandbox() on a created sandbox changes nothing about its place in the lifecycle or in the registry
+          int s = pick_sbx(op.a[0]);
+          if (S[(size_t)s].state != 1)
+            break;
+          Outcome o = attempt([&] { S[(size_t)s].sb->reset_sandbox(); });
+          c.ev("reset #%d -> %s", s, oname(o));
+          c.probe("sandbox_reset");
+          if (o != OK)
+            c.violate("C14", "reset_of_created_sandbox_aborts@reset", "%s", g_last_abort_msg.c_str());
+          break;
+        }
       }
       int live = 0;
       for (auto& st : S)
